@@ -1,23 +1,65 @@
 import ribgen
 
 CONFIG = dict(
-    level_text="(in progress) Lean model of table/src/lib.rs (Table, Ord for RibEntry, evpn_type2_cmp, ecmp_paths) and "
-               "Attribute::as_path_length; the C02 reference checker (decision order written from the property text) is run as "
-               "oracle on the real Table's observations and the model is diffed against the real code on generated histories.",
-    level_note="Trusted: Lean kernel; hand-written model (checked by the correspondence stream only); harness glue.",
-    lean_modules=["Rbgp.Rib.SpecC02"],
-    theorems=[],
+    level_text="Kernel-checked Lean theorems about a model of table/src/lib.rs (Table, impl Ord for RibEntry, "
+               "evpn_type2_cmp, insert/partition_point, restale re-sort, collect_loc_rib_paths[_limited], ecmp_paths) and "
+               "packet/src/bgp.rs Attribute::as_path_length, for ALL well-formed cases and ALL finite histories of the twelve "
+               "Table operations in both build profiles: the comparator is a total preorder and IS the decision order of the "
+               "property text (cmp_iff_beats), AS hop counting is exact and panic-free for any length, every reachable path "
+               "list is ranked, the best path is unbeaten among eligible paths, add-path / ECMP lists are prefixes (ECMP = "
+               "maximal leading run tied before the router-id), rankings of the same path set have equal key sequences, and "
+               "the master theorem: the C02 reference checker accepts every model run.  The model is tied to the real code by "
+               "running the real Table and the model on the same generated histories (debug and release builds) and diffing "
+               "complete observations after every operation; the reference checker is the oracle on the real observations.",
+    level_note="Trusted: Lean kernel; axioms propext/Classical.choice/Quot.sound; the hand-written model (checked only by the "
+               "correspondence stream); harness glue (case decoding, Arc identity -> index). Modelled, not verified: "
+               "sort_unstable on ties (stable insertion sort in the model; the spec compares keys, never identities); "
+               "partition_point as linear insertion (equal on ranked lists, which reachable_sorted establishes for the model); "
+               "comparison keys cached at insert instead of recomputed per comparison (equal for well-formed attributes); the "
+               "cross-shard window between a Source flag flip and the re-sort of another shard (flag flip + re-sort are atomic "
+               "per table in the model); u32 wrap of next_path_id. Spec interpretation: absent LOCAL_PREF = 100, absent ORIGIN = "
+               "incomplete, RsClient counts as eBGP, a type-2 path with MAC mobility beats one without.",
+    lean_modules=["Rbgp.Rib.PropsC02"],
+    theorems=[
+        "Rbgp.Rib.PropsC02.check_run_ok",
+        "Rbgp.Rib.PropsC02.cmp_lawful",
+        "Rbgp.Rib.PropsC02.cmp_iff_beats",
+        "Rbgp.Rib.PropsC02.asPathLength_spec",
+        "Rbgp.Rib.PropsC02.asPathLength_no_panic",
+        "Rbgp.Rib.PropsC02.insert_preserves_sorted",
+        "Rbgp.Rib.PropsC02.resort_sorted",
+        "Rbgp.Rib.PropsC02.reachable_sorted",
+        "Rbgp.Rib.PropsC02.best_maximal",
+        "Rbgp.Rib.PropsC02.addpath_is_prefix",
+        "Rbgp.Rib.PropsC02.ecmp_is_leading_run",
+        "Rbgp.Rib.PropsC02.order_independent",
+    ],
     harness=dict(kind="pt", bin="c02"),
     profiles=["debug", "release"], profile_in_case=True,
     n_quick=1500, n_thorough=120000, shards=12,
-    nontrivial_re=r"\(st ",
+    # non-trivial = some destination ranks at least two exportable paths
+    nontrivial_re=r"\(loc [^\n]*?\(\([vm] \d+\) \d+ \d+ \([^()]*\) \(",
     rule="histories over one Table: candidate paths from colliding attribute domains (LOCAL_PREF {90,100,110,absent}, AS_PATH "
-         "segment templates incl. AS_SET / confed / 300 hops, ORIGIN 0-2, five peer roles, 3 router-ids / ORIGINATOR_IDs, "
-         "CLUSTER_LIST of 0/1/2, LLGR_STALE / NO_LLGR communities, MAC mobility none/0/1 on EVPN type-2), arrival orders, "
-         "replace / remove / drop / restale / restale_llgr / purges / next-hop flips; distinct = distinct case line",
-    expect_tokens=[],
-    trusted_base=[], modelled_not_verified=[], assumptions=[],
-    claimed=False, na_reason="proofs in progress",
+         "segment templates incl. AS_SET / confed / empty / 255+45 hops / 200+SET+56, ORIGIN 0-2/absent, five peer roles, 3 "
+         "router-ids / ORIGINATOR_IDs, CLUSTER_LIST of 0/1/2, LLGR_STALE / NO_LLGR / other communities incl. a truncated one, MAC "
+         "mobility none/0/1 (also behind another extended community) on EVPN type-2), up to 6 prefixes, up to 5 sessions incl. a "
+         "restarted session of the same peer address, arrival orders, replace / remove / drop / restale / restale_llgr / three "
+         "purges / next-hop flips / deferral / prefix limits; thorough adds all 120 arrival orders of 5-path sets; plus "
+         "structural mutations (mostly rejected as bad-case by both sides); distinct = distinct case line",
+    expect_tokens=["nochange", "limit", "(stale 0", "(llgr 0", "(fam ev (dests ((m", "t - 2 (", "t - 3 (", "f t - 1 (",
+                   "(chs)", "(bad-case)", "t t 1 "],
+    trusted_base=["model Rbgp/Rib/Model.lean of table/src/lib.rs (Table and friends) + packet/src/bgp.rs as_path_length",
+                  "harness/pt/src/rib.rs: drives the real Table through its public API; Arc<Source>/Arc<Vec<Attribute>> "
+                  "identities are mapped to the index of the case's source / attribute table; hash-map outputs are sorted"],
+    modelled_not_verified=["sort_unstable tie order (stable insertion sort in the model)",
+                           "partition_point as linear insertion after the last not-worse element",
+                           "comparison keys cached per entry (Rust recomputes the same pure getters per comparison)",
+                           "cross-shard window between a Source flag flip and another shard's re-sort",
+                           "u32 wrap-around of Destination.next_path_id", "hash-map iteration order (association lists)"],
+    assumptions=["a case is well-formed (Case.Good): sources and attribute sets are referred to by their position (Arc identity), "
+                 "every Source is used with one family (daemon: one Source per negotiated family), AS_PATH bytes are whole "
+                 "segments of type 1..4 (what Attribute::decode guarantees); both codecs reject other cases as (bad-case)"],
+    claimed=True,
 )
 
 
